@@ -63,13 +63,16 @@ Fixpoint wt_ce (fuel : nat) (is_agg : bool) (fillv : option val) (s : Z) (pts : 
   end.
 
 (** not createEmpty: one buffer per cursor array; the windows come from the array's
-    timestamps ([PrevBounds(GetLatestBounds(ts))]), the values from [nextAt] over the SAME
+    timestamps ([PrevBounds(GetLatestBounds(ts))] for an aggregate, [GetLatestBounds(ts)] for a
+    selector), the values from [nextAt] over the SAME
     array.  Returns the rows and the number of values consumed. *)
 Fixpoint wt_arr (is_agg : bool) (fillv : option val) (tss : list Z) (rest : list (Z * val)) : list row * nat :=
   match tss with
   | [] => ([], O)
   | ts :: tss' =>
-      let s := wstart ts - every in
+      (* aggregate: [ts] is the stop of its window, i.e. the start of GetLatestBounds(ts), so the
+         window is PrevBounds; selector (forced aggregate): [ts] is the point's time *)
+      let s := if is_agg then wstart ts - every else wstart ts in
       let stop := clip_stop (s + every) in
       match rest with
       | p :: rest' =>
@@ -120,15 +123,14 @@ Fixpoint ews_block (fuel : nat) (n : N) (B : N) (s : Z) (pts : list (Z * val)) :
         else let '(rs, s', p') := ews_block f (n + 1)%N B (s + every) pts' in (r :: rs, s', p')
   end.
 
-(** [advance()] until the current array is empty at the top of a call *)
+(** [advance()] until the window position reaches bounds.Stop (an exhausted cursor just gives
+    null rows); a series without any point is an empty table ([flux_rows], [arrs = []]) *)
 Fixpoint ews_rows (fuel : nat) (B : N) (s : Z) (pts : list (Z * val)) : list row :=
   match fuel with
   | O => []
   | S f =>
-      match pts with
-      | [] => []
-      | _ => let '(rs, s', pts') := ews_block (N.to_nat B) 0%N B s pts in rs ++ ews_rows f B s' pts'
-      end
+      if be <=? s then []
+      else let '(rs, s', pts') := ews_block (N.to_nat B) 0%N B s pts in rs ++ ews_rows f B s' pts'
   end.
 
 Definition nwin : Z := (be - wstart bs + every - 1) / every.
